@@ -1375,7 +1375,7 @@ def _lint_line_starting_indent(
             # to remove the indent from it.
             src_fix = SourceFix(
                 "",
-                source_slice=slice(0, len(current_indent) + 1),
+                source_slice=slice(0, len(current_indent)),
                 templated_slice=slice(0, 0),
             )
             fixes = [
